@@ -429,10 +429,16 @@ impl Property for TamperGcOutput {
             // rebuild the output without the victim
             let _ = std::fs::remove_dir_all(&scratch);
             copy_tree(&root, &scratch);
-            // the entry as it reads after the tamper (modify: one more byte of value)
+            // the entry as it reads after the tamper (modify: one more byte of value, or the last byte changed when the value is at its maximum length)
             let modified: vcore::refcursor::Entry = {
                 let mut v = victim.2.clone().unwrap_or_default();
-                v.push(0x5a);
+                if v.len() >= sst::MAX_VALUE_LEN {
+                    // no room for one more byte: change the last one
+                    let l = v.len() - 1;
+                    v[l] ^= 0x5a;
+                } else {
+                    v.push(0x5a);
+                }
                 (victim.0.clone(), victim.1, Some(v))
             };
             let kept: Vec<vcore::refcursor::Entry> = match kind {
